@@ -145,14 +145,29 @@ def judge(case):
     E = sut.evaluator_mod().ExperimentEvaluator
     for si in range(len(SOURCES)):
         _seq(si)  # warm-up: imports, regex caches, sequential references
-    shared_evs = [E(SOURCES[s]) for s in case["shared"]]
+    try:
+        shared_evs = [E(SOURCES[s]) for s in case["shared"]]
+    except Exception as e:
+        # nothing concurrent is going on here: an earlier concurrent run must have left broken state behind
+        from .. import common
+
+        common.reset_after_violation()
+        return {"viol": ["constructing an evaluator sequentially raised %s: %s (state left behind by an earlier concurrent run in this "
+                         "process)" % (type(e).__name__, e)], "tags": ["sequential-construction-failed"]}
     fns = _build_ops(case, shared_evs, E)
     s = sched.Scheduler(fns, [tuple(x) for x in case["schedule"]], cycle=case.get("cycle", True))
     try:
         results = s.run()
     except sched.Stuck as e:
         return {"viol": [], "nontrivial": False, "tags": ["inconclusive:stuck"], "skipped": "stuck-schedule"}
-    viol = _judge_results(case, results, shared_evs, "owned schedule")
+    try:
+        viol = _judge_results(case, results, shared_evs, "owned schedule")
+    except Exception as e:
+        viol = ["probing the evaluators after the run raised %s: %s" % (type(e).__name__, e)]
+    if viol:
+        from .. import common
+
+        common.reset_after_violation()
     srcs = {op.get("src") for op in case["ops"] if "src" in op} | set(case["shared"])
     has_comment = any("/*" in SOURCES[i] for i in srcs if i is not None)
     nt = s.overlap_handoffs >= 1 and has_comment
